@@ -64,14 +64,14 @@ bool info_ok(const std::string& got, const CModel& m) {
 }
 
 struct Sys {
-  RateMonitoring mon; CheckupEqualToRate eq; CheckupGreaterThanRate gt;
+  std::unique_ptr<RateMonitoring> mon; CheckupEqualToRate eq; CheckupGreaterThanRate gt;   // the bare monitor is held by pointer so that it can be replaced by a copy of itself
   RModel rm; CModel ceq, cgt; long long origin, last;
   bool zeroFirst = false;   // the first data stamp is exactly 0 ns (the value the monitor's "last stamp" starts with)
-  Sys(double rate, double tol, long long org) : mon(rate), eq("lidar", rate, tol), gt("lidar", rate, tol), rm(rate), ceq(0, "lidar", rate, tol), cgt(1, "lidar", rate, tol), origin(org), last(org) {}
+  Sys(double rate, double tol, long long org) : mon(new RateMonitoring(rate)), eq("lidar", rate, tol), gt("lidar", rate, tol), rm(rate), ceq(0, "lidar", rate, tol), cgt(1, "lidar", rate, tol), origin(org), last(org) {}
 };
 
 std::string ev_json(const std::vector<Event>& h) {
-  std::string s = "["; for (size_t i = 0; i < h.size(); ++i) { if (i) s += ","; s += vf::JO().str("ev", h[i].data ? "stamp" : "heartbeat").i("dt_ns", h[i].dt).done(); } return s + "]";
+  std::string s = "["; for (size_t i = 0; i < h.size(); ++i) { if (i) s += ","; s += h[i].dt < 0 ? std::string("{\"ev\":\"monitor replaced by a copy of itself\"}") : vf::JO().str("ev", h[i].data ? "stamp" : "heartbeat").i("dt_ns", h[i].dt).done(); } return s + "]";
 }
 
 template <class CK> bool check_report(vf::Ctx& c, const CK& ck, const CModel& m, const char* site, const std::string& params) {
@@ -96,21 +96,21 @@ bool step(vf::Ctx& c, Sys& s, const Event& e, const std::string& params) {
   bool ok = true;
   c.eval();
   if (e.data) {
-    double r = s.mon.update(Duration(t));
+    double r = s.mon->update(Duration(t));
     long double want = s.rm.update(t);
     s.last = t;
     c.obs(r);
-    if (!rate_close(r, want) || s.mon.getRate() != r) { c.violation("RateMonitoring.update", params, vf::JO().num("got", r).num("getRate", s.mon.getRate()).num("want", want).u("model_window", s.rm.W).u("stamps", s.rm.nstamps).done()); ok = false; }
+    if (!rate_close(r, want) || s.mon->getRate() != r) { c.violation("RateMonitoring.update", params, vf::JO().num("got", r).num("getRate", s.mon->getRate()).num("want", want).u("model_window", s.rm.W).u("stamps", s.rm.nstamps).done()); ok = false; }
     DiagnosticStatus a = s.eq.evaluate(Duration(t)), b = s.gt.evaluate(Duration(t));
     s.ceq.evaluate(want); s.cgt.evaluate(want);
     if (!s.ceq.boundary && a != s.ceq.st) { c.violation("CheckupEqualToRate.evaluate.returnedStatus", params, vf::JO().str("got", sname(a)).str("want", sname(s.ceq.st)).num("model_rate", want).done()); ok = false; }
     if (!s.cgt.boundary && b != s.cgt.st) { c.violation("CheckupGreaterThanRate.evaluate.returnedStatus", params, vf::JO().str("got", sname(b)).str("want", sname(s.cgt.st)).num("model_rate", want).done()); ok = false; }
     if (a != s.eq.getReport().diagnostics.front().status || b != s.gt.getReport().diagnostics.front().status) { c.violation("CheckupRate.evaluate.returnedVsStored", params, "{}"); ok = false; }
   } else {
-    bool to = s.mon.timeout(Duration(t));
+    bool to = s.mon->timeout(Duration(t));
     bool want = s.rm.timeout(t);
     c.obs((uint64_t)to);
-    if (to != want || !rate_close(s.mon.getRate(), s.rm.rate)) { c.violation("RateMonitoring.timeout", params, vf::JO().b("got", to).b("want", want).num("rate", s.mon.getRate()).num("want_rate", s.rm.rate).i("silence_ns", t - s.rm.last).done()); ok = false; }
+    if (to != want || !rate_close(s.mon->getRate(), s.rm.rate)) { c.violation("RateMonitoring.timeout", params, vf::JO().b("got", to).b("want", want).num("rate", s.mon->getRate()).num("want_rate", s.rm.rate).i("silence_ns", t - s.rm.last).done()); ok = false; }
     bool ha = s.eq.heartBeatCallback(Duration(t)), hb = s.gt.heartBeatCallback(Duration(t));
     if (want) { s.ceq.timeout(); s.cgt.timeout(); }
     if (ha != !want || hb != !want) { c.violation("CheckupRate.heartBeatCallback", params, vf::JO().b("got_eq", ha).b("got_gt", hb).b("want", !want).done()); ok = false; }
@@ -123,12 +123,12 @@ bool step(vf::Ctx& c, Sys& s, const Event& e, const std::string& params) {
 uint64_t canon(const Sys& s) {
   uint64_t h = 3;
   // implementation: period queue (first pseudo-period, which is the absolute first stamp, replaced by a marker), sum, rate, reports
-  const auto& q = s.mon.periods_.c;
-  long long sum = s.mon.periodsSum_;
+  const auto& q = s.mon->periods_.c;
+  long long sum = s.mon->periodsSum_;
   bool firstIn = s.rm.nstamps >= 1 && s.rm.nstamps <= s.rm.W;   // the pseudo-period is still queued
   for (size_t i = 0; i < q.size(); ++i) { if (i == 0 && firstIn) { h = vf::mix64(h, 0xabcdef); sum -= q[0]; } else h = vf::mix64(h, (uint64_t)q[i]); }
   h = vf::mix64(h, (uint64_t)sum);
-  double r = s.mon.getRate(); uint64_t u; memcpy(&u, &r, 8); h = vf::mix64(h, u);
+  double r = s.mon->getRate(); uint64_t u; memcpy(&u, &r, 8); h = vf::mix64(h, u);
   for (const DiagnosticReport& rep : {s.eq.getReport(), s.gt.getReport()}) {
     h = vf::mix64(h, (uint64_t)rep.diagnostics.front().status);
     for (char ch : rep.diagnostics.front().message) h = vf::mix64(h, ch);
@@ -173,8 +173,8 @@ void s1(vf::Ctx& c, double rate, double tol, size_t maxStates) {
       c.transitions(); c.traces();
       bool ok = step(c, s, A[ev], params);
       vf::Ctx m2; step(m2, s2, A[ev], params); step(m2, s3, A[ev], params);
-      if (ok && (m2.c.violations || canon(s) != canon(s2) || s.mon.getRate() != s2.mon.getRate() || canon(s) != canon(s3) || s.mon.getRate() != s3.mon.getRate())) {
-        c.violation("RateMonitoring.timeOriginDependence", params, vf::JO().num("rate_origin0", s.mon.getRate()).num("rate_shifted", s2.mon.getRate()).num("rate_first_stamp_zero", s3.mon.getRate()).done()); ok = false;
+      if (ok && (m2.c.violations || canon(s) != canon(s2) || s.mon->getRate() != s2.mon->getRate() || canon(s) != canon(s3) || s.mon->getRate() != s3.mon->getRate())) {
+        c.violation("RateMonitoring.timeOriginDependence", params, vf::JO().num("rate_origin0", s.mon->getRate()).num("rate_shifted", s2.mon->getRate()).num("rate_first_stamp_zero", s3.mon->getRate()).done()); ok = false;
       }
       if (s.rm.nstamps > s.rm.W + 1 || !A[ev].data) c.nontrivial();
       if (!ok) continue;
@@ -193,7 +193,8 @@ void s1(vf::Ctx& c, double rate, double tol, size_t maxStates) {
 // ---- S1b: every event sequence to a depth, no state de-duplication (robust against state the canonical key does not see) ---
 void s1b(vf::Ctx& c, double rate, double tol, int depth, int first) {
   auto A = alphabet();
-  const int NE = (int)A.size();
+  const int NA = (int)A.size();
+  const int NE = NA + 1;   // + "replace the bare monitor by a copy of itself" (hand-written copy constructor; the check-ups are not copyable)
   uint64_t total = 1; for (int i = 1; i < depth; ++i) total *= NE;
   std::vector<int> seq(depth); seq[0] = first;
   for (uint64_t k = 0; k < total; ++k) {
@@ -202,6 +203,7 @@ void s1b(vf::Ctx& c, double rate, double tol, int depth, int first) {
       Sys s(rate, tol, z ? -20 * kS : 1000 * kS); s.zeroFirst = z;
       std::vector<Event> evs;
       for (int i = 0; i < depth; ++i) {
+        if (seq[i] == NA) { std::unique_ptr<RateMonitoring> cp(new RateMonitoring(*s.mon)); s.mon = std::move(cp); evs.push_back({false, -1}); c.transitions(); continue; }
         evs.push_back(A[seq[i]]);
         c.transitions(); if (i) c.nontrivial();
         std::string params = (i + 1 == depth || (k % NE) == 0) ? vf::JO().str("explorer", "S1b").num("expected_rate", rate).num("tolerance", tol).b("first_stamp_zero", z).raw("history", ev_json(evs)).done() : std::string("{\"explorer\":\"S1b\"}");
@@ -270,7 +272,7 @@ const std::vector<Case>& cases(bool th) {
     for (int f = 0; f < len1; ++f) v.push_back({2, r, t, len1, 1, f});
     if (th || r == 5.0 || (r == 12.5 && t == 0.1)) { int len2 = (th && r < 30 ? 3 : 2) * W + 6; for (int f = 0; f < len2; ++f) v.push_back({2, r, t, len2, 2, f}); }
   }
-  for (double r : {1.0, 2.5}) for (int f = 0; f < kNP + kNH; ++f) v.push_back({3, r, 0.1, th ? 6 : 5, 0, f});
+  for (double r : {1.0, 2.5}) for (int f = 0; f < kNP + kNH; ++f) v.push_back({3, r, 0.1, th ? 6 : 5, 0, f});   // the first event is a real event; the copy operation appears from the second position on
   return v;
 }
 
@@ -294,7 +296,7 @@ std::string vf_describe(const std::string& tier) {
   o.str("S1", th ? "expected rates 0.5,1,2 (W=4) x tolerance {0,0.1} and 2.5 (W=5) x 0.1" : "expected rates 0.5,1,2 (W=4) x tolerance {0,0.1}");
   o.vec("S1_data_periods_ns", std::vector<long long>(kPeriods, kPeriods + kNP)).vec("S1_heartbeat_offsets_ns", std::vector<long long>(kHb, kHb + kNH));
   o.str("S1_search", "BFS to fixpoint; state = monitor queue/sum/rate + both check-up reports + model; history replayed on fresh objects at two time origins");
-  o.str("S1b", th ? "every sequence of 6 events over the 11-event alphabet for expected rates 1 (W=4) and 2.5 (W=5), no state de-duplication" : "every sequence of 5 events over the 11-event alphabet for expected rates 1 (W=4) and 2.5 (W=5), no state de-duplication");
+  o.str("S1b", th ? "every sequence of 6 events over the 11-event alphabet plus \"replace the bare monitor by a copy of itself\" for expected rates 1 (W=4) and 2.5 (W=5), no state de-duplication" : "every sequence of 5 events over the 11-event alphabet plus \"replace the bare monitor by a copy of itself\" for expected rates 1 (W=4) and 2.5 (W=5), no state de-duplication");
   o.str("S2", th ? "expected rates 5,10,12.5,32,200 x tolerance {0,0.1}: 500-event steady script, deviation bound 1 at every position (8 kinds), bound 2 on scripts of 2-3 windows"
                  : "expected rates 5,10,12.5,32,200 x tolerance {0,0.1}: 500-event steady script (bound 0), bound 1 on 3W+8 events (8 kinds, every position), bound 2 on 2W+6 events for rate 5 and 12.5");
   o.str("time_origins", "S1: every transition at two origins plus a run whose first data stamp is exactly 0 ns, canonical states compared; S1b: every sequence with a positive origin and with first stamp 0; S2: bound 0/1 scripts also with first stamp 0 (first 150 events)");
